@@ -970,6 +970,13 @@ func checkSummaryOffsetsComplete(p *Program, r *Result, isSink func(ssa.CallInst
 		}
 		// every path from after the call to a successful return passes an append
 		ok := pathsToSuccessHit(fn, ci, pred, assume...)
+		// a helper that writes the group and appends its offset itself (offsets, err = w.group(offsets, ...)): every
+		// successful return of the helper comes after an append, and the caller keeps the returned list
+		if h := ci.Common().StaticCallee(); !ok && h != nil && p.transparent(h) && len(h.Blocks) > 0 {
+			if pathsToSuccessHit(h, h.Blocks[0].Instrs[0], isOffsetsAppend) {
+				ok = true
+			}
+		}
 		if !ok {
 			bad++
 			what := calleeRepoName(ci)
